@@ -32,7 +32,9 @@ ORACLES = {
 }
 RULE = ("Histories: create BloomFilterOnDisk(geometry est 1..40 (1/16: 600..60000) x fpr list, default/md5/salted hash) at a generated location (relative "
         "name in cwd, relative path with a sub-directory, absolute path with cwd elsewhere, Path object, a name that goes through a "
-        "symlinked directory and `..`), then 2-25 ops: add(key from a pool "
+        "symlinked directory and `..`, a `~/` name with HOME pointing at the history's root), then 2-25 ops: add(key from a pool; a quarter through "
+        "add_alt with a hash list two entries longer than needed), export onto the OWN backing file in any spelling, a refused constructor call "
+        "on the closed file before re-opening, "
         "of 2-8), close+reopen (location style and working directory re-drawn each time), export(other path, relative or absolute), "
         "clear. Fault model: process kill (no torn pages, no power loss). Enumeration: a sys.settrace line tracer restricted to library "
         "frames snapshots the backing file at every executed line of every add/close/export. A sampled fraction of histories (1/6 quick, "
